@@ -198,6 +198,11 @@ def selStochasticUniversalSampling(individuals, k, fit_attr="fitness"):
     s_inds = sorted(individuals, key=attrgetter(fit_attr), reverse=True)
     sum_fits = sum(getattr(ind, fit_attr).values[0] for ind in individuals)
 
+    if k == 0:
+        # Nothing to sample: no pointer is placed, so the spacing between
+        # pointers (total fitness / k) is never needed.
+        return []
+
     distance = sum_fits / float(k)
     start = random.uniform(0, distance)
     points = [start + i * distance for i in range(k)]
